@@ -290,6 +290,18 @@ def Hook.str : Hook → String
   | .create => "create" | .init => "init" | .mod => "mod" | .act => "act" | .id => "id" | .hbeat => "hbeat"
   | .ofilt => "ofilt"
 
+/-- an efun an object executes right after `destruct (this_object ())`, in the same function -/
+inductive Gh where
+  | ln (s : String)   -- set_living_name (s)
+  | ec                -- enable_commands ()
+  | aa (v : String)   -- add_action ("act", v)
+  | hbe               -- set_heart_beat (1)
+  | mv (d : Nat)      -- move_object (d)
+  deriving Repr
+
+def Gh.str : Gh → String
+  | .ln _ => "ln" | .ec => "ec" | .aa _ => "aa" | .hbe => "hbe" | .mv _ => "mv"
+
 /-- what a scripted LPC object can do (harness/mudlib/c08/obj.c: do_op) -/
 inductive Op where
   | ld (b : Base)            -- load_object("/c08/..")
@@ -312,6 +324,7 @@ inductive Op where
   | rd                       -- read that variable back
   | err                      -- error("boom")
   | mvarg                    -- inside move_or_destruct(dest): if (dest) move_object(dest)
+  | gh (g : Gh)              -- destruct (this_object ()); then one more efun executed by the (destructed) object itself
   | ret0                     -- the running action function will return 0 (`act_ret = 0` in the executing object)
   | ra (a : Nat) (verb : String)  -- a: remove_action("act", verb)
   | obf                      -- objects("ofilt"): obj_list walked with a filter function of the executing object
@@ -591,6 +604,20 @@ def exec (sc : Scripts) : Nat → Task → World → R
             (exec sc f (.move self d) (emit w s!"mvb {oid self} {oid d}")).andThen fun w _ =>
               { w := emit w s!"r mv {oid self} {oid d} ok" }
           | none => { w := emit w s!"r mvarg {oid self} 0" }
+        | .gh g =>
+          -- the object goes on running after its own destruct: set_living_name / enable_commands / add_action /
+          -- set_heart_beat all return at once for a destructed current_object, move_object raises an error - a destructed
+          -- object must not get back into any registry
+          (exec sc f (.destruct self) (emit w s!"deb {oid self}")).andThen fun w _ =>
+            let w := emit w s!"r de {oid self} ok"
+            if (w.c.objs self).destructed then
+              match g with
+              | .mv d => if (readRef w.c d).isSome then raise w errMoveDested else { w := emit w s!"r gh {oid self} mv" }
+              | _ => { w := emit w s!"r gh {oid self} {g.str}" }
+            else
+              -- (destruct_object returned without destructing: cannot happen; then the efun runs as for any live object)
+              exec sc f (.ops self arg [match g with
+                | .ln s => Op.ln self s | .ec => Op.ec self | .aa v => Op.aa self v | .hbe => Op.hbe self | .mv d => Op.mv self d]) w
         | .ret0 => { w := { w with ret0 := self :: w.ret0.filter (· ≠ self) } }
         | .ra a verb =>
           -- remove_action: `ob = command_giver ? command_giver : current_object`; first sentence of ob defined by the
